@@ -164,14 +164,59 @@ def run(ctx):
                 eq = z3_equiv(e, s)
                 if eq is False:
                     ctx.violation("C09/claripy.simplify/not-equivalent-fp-str", "claripy.simplify(%r) = %r is not equivalent (Z3 model exists)" % (e, s), {"expr": repr(e)})
+    # FP constants survive the round trip bit for bit (normal, subnormal, zeros, infinities; NaN as NaN), alone and inside a comparison
+    from lib import fs_fp as P
+    nconst = 0
+    for fmt in "FD":
+        vals = list(P.boundary_bits(fmt)) + [P.rand_bits(rng, fmt) for _ in range(ctx.pick(150, 3000))]
+        sort = P.sort_obj(fmt)
+        fv = claripy.FPS("k" + fmt, sort, explicit_name=True)
+        for b in vals:
+            ctx.count()
+            nconst += 1
+            c = P.real_fpv(fmt, b)
+            want = P.ast_result(c)
+            for how, mk, pick in (("constant", lambda c_: c_, lambda r: r), ("fpLT(v, constant)", lambda c_: claripy.fpLT(fv, c_), lambda r: r.args[1] if r.op == "fpLT" else None),
+                                  ("fpEQ(constant, v)", lambda c_: claripy.fpEQ(c_, fv), lambda r: next((z for z in r.args if getattr(z, "op", None) == "FPV"), None) if r.op == "fpEQ" else None)):
+                e = mk(c)
+                try:
+                    back = bz._abstract(bz.convert(e))
+                    simp = bz.simplify(e)
+                except claripy.errors.ClaripyError as ex:
+                    ctx.violation("C09/fp-constant/raises-%s" % type(ex).__name__, "round trip of %r (%s bits %#x) raised %r" % (e, fmt, b, ex), {"fmt": fmt, "bits": b, "how": how})
+                    break
+                bad = None
+                for what, r in (("_abstract(convert(e))", back), ("backends.z3.simplify(e)", simp)):
+                    k_ = pick(r)
+                    if k_ is None or k_.op != "FPV":
+                        if want[0] == "f" and want[2] == "nan" and r.op == "BoolV":
+                            continue     # comparison with NaN folded by Z3
+                        if r.op == "BoolV" or k_ is None:
+                            continue
+                    got = P.ast_result(k_)
+                    if got != want:
+                        bad = (what, got)
+                        break
+                if bad:
+                    ctx.violation("C09/fp-constant/value-changed", "%s of %s with the %s constant of bits %#x came back as %r (expected %r)" % (
+                        bad[0], how, fmt, b, bad[1], want), {"fmt": fmt, "bits": b, "how": how})
+                    break
     # Solver.simplify keeps the model set
     for it in range(ctx.pick(60, 800)):
         w = 3
         x, y = claripy.BVS("mx", w, explicit_name=True), claripy.BVS("my", w, explicit_name=True)
         atoms = [claripy.ULT(x, rng.randrange(8)), x + y == rng.randrange(8), claripy.Or(x == 1, y == 2), x != y, claripy.SLE(x, y), (x & y) == 0,
                  claripy.And(x > 1, x < 6), claripy.Not(x == y), x * 2 == y, claripy.If(x > y, x, y) == 5]
-        cons = rng.sample(atoms, rng.choice([1, 2, 3, 4]))
-        for cls in (claripy.Solver, claripy.SolverCacheless, claripy.SolverComposite):
+        # tautologies only Z3 recognises (the rest of the set may collapse to `true`), and constraints that simplification must keep as they are
+        tauts = [claripy.UGE(x | 4, 4), claripy.Or(claripy.ULT(x, 5), claripy.UGE(x, 5)), (x ^ y) == (y ^ x), claripy.ULE(x & y, x), (x + y) - y == x]
+        cons = rng.sample(atoms, rng.choice([0, 1, 2, 3, 4])) + rng.sample(tauts, rng.choice([0, 0, 1, 2]))
+        if not cons:
+            cons = [rng.choice(atoms)]
+        if rng.random() < 0.5:
+            k_ = rng.randrange(len(cons))
+            cons[k_] = cons[k_].annotate(claripy.annotation.SimplificationAvoidanceAnnotation())
+        rng.shuffle(cons)
+        for cls in (claripy.Solver, claripy.SolverCacheless, claripy.SolverComposite, claripy.SolverHybrid, claripy.SolverReplacement):
             ctx.count()
             s = cls()
             s.add(cons)
@@ -187,7 +232,7 @@ def run(ctx):
                     cls.__name__, cons, sorted(before - after)[:4], sorted(after - before)[:4]), {"solver": cls.__name__, "constraints": [repr(c) for c in cons]})
     ctx.cov["traces_validated_against_impl"] = sum(dist.values())
     ctx.cov["input_distribution"] = {"templates": dict(dist), "z3_kinds_seen_after_simplify": dict(kinds_seen),
-                                     "roundtrip_identical_objects": identical}
+                                     "roundtrip_identical_objects": identical, "fp_constants_round_tripped": nconst}
     ctx.sample({"z3_kinds_seen": sorted(kinds_seen)[:20]})
 
 
